@@ -4,7 +4,7 @@ import random
 
 from hypothesis import strategies as st
 
-from vlib import cal, market, refbt, sessgen, session
+from vlib import cal, kit, market, refbt, sessgen, session
 from vlib.runner import Part, Result, Violation
 from vlib.sut import clear_caches
 
@@ -40,6 +40,13 @@ def run_case(case):
             for k in idxs:
                 if 0 < k < len(mk[s]):
                     mk[s][k][3] = None
+    if case.get('suspended'):
+        # one symbol's bars carry no prices at all for a run of more than a week: it keeps trading at the last close
+        s_, k0_, n_ = case['suspended']
+        if s_ in mk and len(mk[s_]) > k0_ + n_:
+            mk = {s: [list(r) for r in rows] for s, rows in mk.items()}
+            for k in range(k0_, k0_ + n_):
+                mk[s_][k][3:] = [None, None, None]
     files = mk
     if case.get('file_order', 'sorted') != 'sorted':
         files = {}
@@ -50,8 +57,17 @@ def run_case(case):
             else:
                 random.Random(811 * i + len(rr)).shuffle(rr)
             files[s] = rr
+    late_fee = case.get('late_fee')
+
+    def swap_fee(r_):
+        # the broker's fee model is replaced after the session was built, before it runs: sizing and fills follow it
+        r_.bt.broker.fee_model = kit.fee_model(late_fee or None)
+    run_cfg = cfg
+    if late_fee is not None:
+        run_cfg = dict(cfg, fee=[0.0123, 0.0045])          # what the session is built with
+        cfg = dict(cfg, fee=late_fee or None)              # what is in force when it runs
     with market.csv_dir(files) as path:
-        r = session.run_session(cfg, path, list(mk))
+        r = session.run_session(run_cfg, path, list(mk), hooks=swap_fee if late_fee is not None else None)
     if r.error:
         raise Violation('session failed with %s: %s at broker time %s' % r.error)
     prices = {'EQ:' + s: refbt.prices_from_rows(rows, cfg.get('adjust', True)) for s, rows in mk.items()}
@@ -98,6 +114,10 @@ def run_case(case):
         cls.append('equity_not_positive_at_some_close')
     if any(case.get('gaps', {}).values()):
         cls.append('bars_with_empty_open')
+    if case.get('suspended'):
+        cls.append('symbol_without_prices_for_over_a_week')
+    if late_fee is not None:
+        cls.append('fee_model_replaced_before_run')
     if case.get('file_order', 'sorted') != 'sorted':
         cls.append('files_' + case['file_order'])
     nreb = len(ref['allocations'])
@@ -161,7 +181,12 @@ def cases(draw):
     if draw(st.sampled_from([False, False, True])):
         for s in names:
             gaps[s] = draw(st.lists(st.integers(1, max(1, len(mk[s]) - 1)), max_size=4, unique=True))
-    return {'cfg': cfg, 'market': mk, 'gaps': gaps,
+    susp = None
+    if draw(st.sampled_from([False] * 5 + [True])):
+        s_ = draw(st.sampled_from(names))
+        susp = [s_, draw(st.integers(2, 6)), draw(st.integers(6, 9))]
+    return {'cfg': cfg, 'market': mk, 'gaps': gaps, 'suspended': susp,
+            'late_fee': draw(st.sampled_from([None, None, None, [0.001, 0.002], []])),
             'file_order': draw(st.sampled_from(['sorted', 'sorted', 'reversed', 'shuffled']))}
 
 
